@@ -161,12 +161,26 @@ class NodeEnv:
     their to_obj() values (bind = "objs", what MatchUnless passes).  While the environment is open, every
     underscore attribute read on ANY TreeNode goes through the recorder."""
 
-    def __init__(self, case):
+    @staticmethod
+    def build(builder, doc):
+        """builder "json": graphtage.json.build_tree(doc); "pyobj": graphtage.pydiff.build_tree(<python object described
+        by doc>) — custom objects and nested containers; "ast": graphtage.pydiff.ast_to_tree(ast.parse(doc)) — the
+        graphtage.ast data-class nodes (Assignment, Call, Subscript, Import, PyAlias, PyObjAttribute …)."""
+        if builder == "pyobj":
+            from graphtage import pydiff
+            return pydiff.build_tree(_py_value(doc))
+        if builder == "ast":
+            import ast
+            from graphtage import pydiff
+            return pydiff.ast_to_tree(ast.parse(doc))
         from graphtage import json as gjson
+        return gjson.build_tree(doc)
+
+    def __init__(self, case):
         from graphtage.tree import TreeNode
         self.TreeNode = TreeNode
-        ft = gjson.build_tree(case["docs"][0])
-        tt = gjson.build_tree(case["docs"][1])
+        ft = self.build(case.get("builder", "json"), case["docs"][0])
+        tt = self.build(case.get("builder", "json"), case["docs"][1])
         fn = list(ft.dfs())
         tn = list(tt.dfs())
         sel = case.get("sel", [0, 0])
@@ -184,6 +198,26 @@ class NodeEnv:
     def close(self):
         if self.hooked and self.TreeNode.__dict__.get("__getattribute__") is _node_getattribute:
             del self.TreeNode.__getattribute__
+
+
+class _PyThing:
+    """a small custom class for graphtage.pydiff.build_tree"""
+
+
+def _py_value(d):
+    """["obj", {attr: value}] -> instance of a custom class, ["tuple", [..]] -> tuple, JSON otherwise"""
+    if isinstance(d, list) and len(d) == 2 and d[0] == "obj" and isinstance(d[1], dict):
+        o = _PyThing()
+        for k, v in d[1].items():
+            setattr(o, k, _py_value(v))
+        return o
+    if isinstance(d, list) and len(d) == 2 and d[0] == "tuple" and isinstance(d[1], list):
+        return tuple(_py_value(x) for x in d[1])
+    if isinstance(d, list):
+        return [_py_value(x) for x in d]
+    if isinstance(d, dict):
+        return {k: _py_value(v) for k, v in d.items()}
+    return d
 
 
 def make_env(case):
@@ -425,6 +459,10 @@ class Recorder:
             g = frame
             while g is not None and g.f_code.co_filename != self.file:
                 if g.f_code.co_filename.startswith(self.pkg):
+                    key = self._name_driven(obj, name, g, frame)
+                    if key is not None:
+                        self.trip.append({"obj": canon(obj), "name": name, "key": key, "frame": g.f_code.co_name})
+                        return
                     self.internal += 1
                     if name == "__dict__" and len(self.dict_reads) < 20:
                         self.dict_reads.append(g.f_code.co_name)
@@ -445,15 +483,65 @@ class Recorder:
             ent["callee"] = self.last_callee
         self.trip.append(ent)
 
+    _INS = {}
+
+    @classmethod
+    def _literal_access(cls, frame, name):
+        """Is the instruction `frame` is executing an attribute access with the name written in the source
+        (`self._children`), as opposed to a call such as getattr(self, slot) that got the name as a value?"""
+        ins = cls._current_instruction(frame)
+        return ins is not None and ins[0] in ("LOAD_ATTR", "LOAD_METHOD", "LOAD_SUPER_ATTR") and ins[1] == name
+
+    @classmethod
+    def _current_instruction(cls, frame):
+        """(opname, argval) of the instruction the frame is executing; f_lasti may point into the inline cache
+        entries that follow a specialised instruction, which belong to the instruction before them."""
+        import bisect, dis
+        code = frame.f_code
+        tab = cls._INS.get(code)
+        if tab is None:
+            ins = [(i.offset, i.opname, i.argval) for i in dis.get_instructions(code)]
+            tab = ([i[0] for i in ins], ins)
+            cls._INS[code] = tab
+        k = bisect.bisect_right(tab[0], frame.f_lasti) - 1
+        if k < 0:
+            return None
+        return tab[1][k][1], tab[1][k][2]
+
+    def _name_driven(self, obj, name, g, frame):
+        """An underscore read made by graphtage's own code is the object's business — unless the NAME came from the
+        expression: the evaluator issued `a[b]` (or a call) and the attribute that is read is the very string it
+        passed.  That is a public API doing name-driven attribute lookup (an unrestricted getattr)."""
+        via = g.f_code.co_name
+        while g is not None and g.f_code not in self.lam:
+            g = g.f_back
+        if g is None:
+            return None
+        opname = self.lam[g.f_code]
+        b = g.f_locals.get("b")
+        if opname in ("GETITEM", "TERNARY_CONDITIONAL"):
+            if isinstance(b, str) and b == name and not self._literal_access(frame, name):
+                return "getitem-reads-underscore-attribute"
+            return None
+        if opname == "FUNCTION_CALL" and isinstance(b, (tuple, list)):
+            if any(isinstance(x, str) and x == name for x in b) and not self._literal_access(frame, name):
+                return "call-reads-named-underscore-attribute:" + _callee_name(g.f_locals.get("a"))
+        return None
+
     def _classify(self, obj, name, frame, fn, infile):
         E = self.E
-        if infile and fn in ("get_value", "eval", "get_member"):
+        if infile and fn in ("get_value", "eval", "get_member", "_safe_format", "_safe_format_map"):
             if fn == "get_member":
                 m = frame.f_locals.get("member")
                 if isinstance(m, E.IdentifierToken) and m.name == name and frame.f_locals.get("obj") is obj:
                     return "evaluator-getattr-underscore"
             if name == "__class__":
-                return None         # isinstance(value, <Token class>) asking the runtime for the object's class
+                return None         # isinstance(value, <some class>) asking the runtime for the object's class
+            cur = self._current_instruction(frame)
+            if cur is not None and cur[0].startswith("FORMAT_"):
+                # an f-string of an error message is being rendered: repr() of e.g. tuple[<obj>] (types.GenericAlias)
+                # asks its arguments for __origin__ / __args__ / __qualname__ / __module__
+                return None
             return "evaluator-direct-read"
         g = frame
         while g is not None and g.f_code not in self.lam:
@@ -488,6 +576,8 @@ class Recorder:
             return "call:" + _callee_name(a)
         if opname == "MEMBER_ACCESS":
             return "evaluator-getattr-underscore"
+        if opname in ("GETITEM", "TERNARY_CONDITIONAL"):
+            return "getitem-reads-underscore-attribute"
         return "operator:" + opname
 
 
@@ -1091,7 +1181,8 @@ def _run_constraints(case):
 
 
 def _noaddr(x):
-    return re.sub(r"0x[0-9a-fA-F]+", "0x", json.dumps(x))
+    """canonical text without memory addresses: hex addresses in reprs, and the huge ints id() / hash() return"""
+    return re.sub(r"(?<![0-9.])[0-9]{12,}(?![0-9])", "<addr>", re.sub(r"0x[0-9a-fA-F]+", "0x", json.dumps(x)))
 
 
 def impl(case):
@@ -1253,7 +1344,7 @@ def classify(case, obs):
     if case.get("kind") == "node":
         r = obs["res"]
         ir = obs.get("internal_reads", 0)
-        return "node-%s/%s/own-private-reads=%s%s%s" % (case.get("bind", "nodes"), "ok" if r[0] == "ok" else r[1],
+        return "node-%s-%s/%s/own-private-reads=%s%s%s" % (case.get("builder", "json"), case.get("bind", "nodes"), "ok" if r[0] == "ok" else r[1],
                                                       "0" if ir == 0 else "1-9" if ir < 10 else "10+",
                                                       "/dict-read-by:" + "+".join(obs["dict_reads"]) if obs.get("dict_reads") else "",
                                                       "/EXPOSED" if obs.get("exposed") else "")
@@ -1487,6 +1578,8 @@ class G:
             r = rng.random()
             if r < 0.5:
                 e = e + rng.choice([".", ".", ".", " . "]) + self.member()
+            elif r < 0.56:
+                e = e + "[" + self.quote(rng.choice(PRIV + DUNDER[:2] + ["pub"])) + "]"
             elif r < 0.7 and d > 0:
                 e = e + "[" + self.expr(d - 1) + "]"
             elif r < 0.9 and d > 0:
@@ -1621,7 +1714,7 @@ class G:
         elif r < 0.3:
             e = "(" + e + "('')[0])"
         elif r < 0.4:
-            e += "[" + rng.choice(["0", "'a'", "n"]) + "]"
+            e += "[" + rng.choice(["0", "'a'", "n", "'_priv'", "'__dict__'", "'__secret'"]) + "]"
         return e
 
     def frame_escape(self):
@@ -1678,7 +1771,11 @@ EDGE = ["", " ", "x", "x.pub", "x._priv", "x.__class__", "x . _priv", "x.'_priv'
         # parenthesised member names
         "x.(_priv)", "x.((_priv))", "(x).(__dict__)", "l[1].(_priv)", "(l[1]).(_priv)", "x.(pub)", "x.((pub))", "(x).(child).(_priv)",
         "x.( _priv )", "x.(child)._priv", "x.(child).(pub)", "d['a'].(_priv)", "(d['a']).((__class__))", "x.(format)", "'{0}'.(format)(1)",
-        "str.(format)('{0._priv}', x)", "x.(m0)", "(x.(id1))(3)", "from.(_priv)", "to.((__secret))"]
+        "str.(format)('{0._priv}', x)", "x.(m0)", "(x.(id1))(3)", "from.(_priv)", "to.((__secret))",
+        # subscripts with underscore-named string keys
+        "x['_priv']", "x['__dict__']", "d['a']['_priv']", "(x.id1(x))['_priv']", "l[1]['_priv']", "x.child['_priv']", "from['_priv']",
+        "to['__secret']", "(x.m0('')[0])['_priv']", "x['pub']", "(x.pair2(x, y))[0]['_priv']", "d['_k']", "(1 ? x : y)['_priv']",
+        "x.m0['_priv']", "str['_priv']", "'abc'['_priv']", "[x][0]['__class__']"]
 
 RPN_MUTS = [["del", 0], ["del", 1], ["del", -1], ["dup", 0], ["dup", -1], ["swap", 0, 1], ["swap", -1, -2], ["size", -2, 0],
             ["size", -2, 2], ["size", -2, 3], ["size", -2, -1], ["size", 1, 5], ["ins", 0, ["other", ","]], ["ins", -1, ["other", ","]],
@@ -1694,7 +1791,7 @@ TOK_ALPHABET = [["id", "x", 0], ["id", "_priv", 0], ["id", "pub", 0], ["id", "fo
                 ["op", "ADDITION"], ["op", "UNARY_MINUS"], ["op", "TERNARY_ELSE"], ["op", "TERNARY_CONDITIONAL"], ["other", ","]]
 TOK_EXTRA = [["id", "unknown", 0], ["id", "len", 0], ["id", "str", 0], ["id", "__class__", 0], ["id", "id1", 0], ["id", "m0", 0],
              ["id", "offset", 0], ["id", "y", 0], ["id", "d", 0], ["id", "l", 0], ["int", "0", 0], ["str", "a"], ["str", "{a._priv}"],
-             ["id", "format_map", 0], ["float", "1e3"], ["fsc", 0, "tuple"], ["fsc", 3, "tuple"], ["fsc", -1, "list"],
+             ["id", "format_map", 0], ["float", "1e3"], ["str", "_priv"], ["str", "__dict__"], ["fsc", 0, "tuple"], ["fsc", 3, "tuple"], ["fsc", -1, "list"],
              ["op", "LOGICAL_NOT"], ["op", "LOGICAL_AND"], ["op", "LOGICAL_OR"], ["op", "EQUALS"], ["op", "IN"], ["op", "UNARY_PLUS"],
              ["op", "BITWISE_NOT"], ["op", "MULTIPLICATION"], ["op", "LESS_THAN"]]
 TOK_ENV = {"vars": [["x", ["S", 1]], ["y", ["S", 2]], ["l", ["l", [["i", 1], ["S", 1]]]], ["d", ["d", [[["s", "a"], ["S", 1]]]]]],
@@ -1766,11 +1863,27 @@ NODE_EDGE = ["from", "to", "from == to", "from.total_size", "from.parent", "to.p
              "from.from_dict(from)", "(from.__class__)", "from.copy_from(to)", "(from.editable_dict('')[0])['_parent']"]
 
 
+PYOBJ_DOCS = [[["obj", {"a": 1, "b": [1, 2], "_hidden": "s"}], ["obj", {"a": 1, "b": [1, 3], "c": ["obj", {"n": None}]}]],
+              [{"k": [1, ["tuple", [2, 3]]], "o": ["obj", {"v": 1}]}, {"k": [1, ["tuple", [2, 4]]], "o": ["obj", {"v": 2, "w": "x"}]}],
+              [["obj", {}], 5], [[["obj", {"p": ["obj", {"q": [1]}]}]], [["obj", {"p": 1}]]]]
+AST_DOCS = [["x = f(1, k=2)[0]\n", "x = f(1, k=3)[1]\n"], ["from os import path\nx, y = 1, 2\n", "from os import sep as s\nx = 1\n"],
+            ["a.b = g(h(1))\n", "a.c = g(1)\n"], ["x = d['k']\n", "x = d['j']\ny = x.z\n"]]
+UNDER_KEYS = ["_parent", "__dict__", "_children", "_edit_modifiers", "_SLOTS", "_DataClassNode__hash", "__class__", "_total_size"]
+NODE_UNDER_EDGE = ["from['_parent']", "from['__dict__']", "to['_children']", "from['_edit_modifiers']", "from['_SLOTS']", "to['__class__']",
+                   "(from.children('')[0])['_parent']", "((from.children('')[0])[0])['_parent']", "(from.parent)['_children']",
+                   "(from.copy('')[0])['__dict__']", "(from.make_edited('')[0])['_parent']", "from['_parent']['_children']",
+                   "(1 ? from : to)['_parent']", "[from, to][0]['__dict__']", "(list(from.dfs('')[0]))[0]['_parent']",
+                   "from['value']", "from['targets']", "from['func']", "from['name']", "from[0]['_parent']", "from['a']['_parent']",
+                   "from.value['_parent']", "from.func['__dict__']", "from.targets['_children']", "from.names['_parent']",
+                   "from.object['_parent']", "from.attr['__dict__']", "to.slice['_parent']", "from.args['_children']", "from.kwargs['__dict__']"]
+
+
 def node_api_names():
     """public attribute names of every TreeNode subclass of the tree under test (so a new public method that hands
     out private state is explored as soon as it exists)"""
     try:
         import graphtage
+        import graphtage.pydiff, graphtage.ast, graphtage.dataclasses  # noqa: F401  (registers the data-class node types)
         from graphtage.tree import TreeNode
         names = set()
         todo = [TreeNode]
@@ -1786,8 +1899,12 @@ def node_api_names():
 def gen_nodes(rng, tier):
     out = []
     api = node_api_names()
-    def case(e, bind=None):
-        c = {"kind": "node", "expr": e, "docs": rng.choice(NODE_DOCS), "sel": [rng.randint(0, 9), rng.randint(0, 9)]}
+    def case(e, bind=None, builder=None):
+        builder = builder or rng.choice(["json", "json", "pyobj", "ast", "ast"])
+        docs = rng.choice(NODE_DOCS if builder == "json" else PYOBJ_DOCS if builder == "pyobj" else AST_DOCS)
+        c = {"kind": "node", "expr": e, "docs": docs, "sel": [rng.randint(0, 14), rng.randint(0, 14)]}
+        if builder != "json":
+            c["builder"] = builder
         if bind:
             c["bind"] = bind
         return c
@@ -1797,6 +1914,16 @@ def gen_nodes(rng, tier):
             out.append(case(e))
         if rng.random() < 0.25:
             out.append(case(e, "objs"))
+    # subscripts with underscore-named string keys, on every kind of node (every data-class node type is reached by `sel`)
+    for e in NODE_UNDER_EDGE:
+        for b in ("json", "pyobj", "ast", "ast"):
+            out.append(case(e, builder=b))
+    for b, docs_list in (("pyobj", PYOBJ_DOCS), ("ast", AST_DOCS)):
+        for docs in docs_list:
+            for i in range(0, 15, 1 if tier != "quick" else 3):
+                k = rng.choice(UNDER_KEYS)
+                out.append({"kind": "node", "builder": b, "docs": docs, "sel": [i, i],
+                            "expr": rng.choice(["from['%s']", "to['%s']", "(from.parent)['%s']", "(from.children('')[0])[0]['%s']"]) % k})
     # every public name: as an attribute, as a zero-argument call and as a one-argument call, and what comes back
     reps = 1 if tier == "quick" else 6
     for _ in range(reps):
@@ -1807,7 +1934,8 @@ def gen_nodes(rng, tier):
             out.append(case(rng.choice([z, z, "list(%s)" % z, "len(%s)" % z, z + "['_children']", z + "['_parent']", z + ".keys('')[0]",
                                         "dict(%s)" % z, "'{0}'.format(%s)" % z, z + "." + rng.choice(api), z + "[0]",
                                         "(%s.%s('')[0])" % (z, rng.choice(api))])))
-            out.append(case("%s.%s(%s)" % (v, nm, rng.choice(["to", "from", "0", "'a'", "len", "from, to"]))))
+            out.append(case("%s.%s(%s)" % (v, nm, rng.choice(["to", "from", "0", "'a'", "len", "from, to", "'_parent'", "'__dict__'"]))))
+            out.append(case(rng.choice(["%s.%s['%s']" % (v, nm, rng.choice(UNDER_KEYS)), "%s['%s']" % (z, rng.choice(UNDER_KEYS))])))
     n = 60 if tier == "quick" else 1500
     for _ in range(n):
         v = rng.choice(["from", "to", "(list(from.dfs('')[0]))[%d]" % rng.randint(0, 3)])
@@ -1822,7 +1950,7 @@ def gen_nodes(rng, tier):
             elif r < 0.9:
                 e = "(" + e + "." + nm + "(" + rng.choice(["to", "0", "'a'"]) + "))"
             else:
-                e = e + "[" + rng.choice(["0", "'a'", "'_children'", "'_parent'", "'k'"]) + "]"
+                e = e + "[" + rng.choice(["0", "'a'", "'k'"] + ["'%s'" % k for k in UNDER_KEYS]) + "]"
         out.append(case(e, "objs" if rng.random() < 0.15 else None))
     return out
 
@@ -1954,7 +2082,7 @@ def shrink(case):
         return
     if case.get("kind") == "node":
         e = case["expr"]
-        if case.get("docs") != NODE_DOCS[3]:
+        if case.get("builder", "json") == "json" and case.get("docs") != NODE_DOCS[3]:
             yield dict(case, docs=NODE_DOCS[3], sel=[0, 0])
         if case.get("sel") != [0, 0]:
             yield dict(case, sel=[0, 0])
